@@ -110,6 +110,15 @@ pub fn generate(seed: u64, thorough: bool) -> Scenario {
     }
     scn.text_build = rng.chance(1, 12);
     cfg.allow_in = scn.text_build;
+    // in a third of the runs some functions are cacheable and calls repeat (same site, or a whole call
+    // sub-expression verbatim): the argument of a cached call must still be evaluated, exactly once
+    let with_cache = rng.chance(1, 3);
+    let cache_mask = if with_cache { rng.next_u64() } else { 0 };
+    if with_cache {
+        cfg.p_repeat_site = *rng.pick(&[100, 300]);
+        cfg.p_repeat_subtree = *rng.pick(&[150, 400]);
+        cfg.p_nested_call = cfg.p_nested_call.max(200);
+    }
     let nrules = 1 + rng.usize(3);
     let names = rule_names(&mut rng, nrules);
     let mut grng = rng.fork();
@@ -122,7 +131,7 @@ pub fn generate(seed: u64, thorough: bool) -> Scenario {
         let expr = g.gen(ty, d);
         scn.rules.push(RuleSpec { name: names[i].clone(), expr });
     }
-    scn.functions = g.functions(&|_| false, true, true, seed);
+    scn.functions = g.functions(&|t: Ty| (cache_mask >> (t as u32)) & 1 == 1, true, true, seed);
     scn.inputs = vec![InputSpec::Val(input)];
     scn.tasks = vec![TaskSpec { tag: 0, entry: Entry::RuleSet, input: 0, start: Start::Now }];
     let p_susp = *rng.pick(&[0, 200, 500, 900]);
@@ -222,6 +231,15 @@ impl<'a> Model<'a> {
     pub fn eval(&mut self, x: &X) -> MRes {
         let kind = x.kind();
         match x {
+            X::Tower(..) | X::Chain(..) => {
+                if let X::Chain(_, items) = x {
+                    if items.len() >= 34 {
+                        self.cov.bump("hit.operator_chain_of_34_or_more_operands");
+                    }
+                }
+                let d = x.desugar();
+                self.eval(&d)
+            }
             X::Val(v) => Ok(v.to_value()),
             X::Ref(n) => self.delegate(Expr::reff(n)),
             X::Sym(n) => match self.syms.get(n) {
@@ -229,6 +247,13 @@ impl<'a> Model<'a> {
                 None => Err(err("InvalidSymbol", vec![n.clone()])),
             },
             X::Call(name, arg) => {
+                fn has_call(x: &X) -> bool {
+                    matches!(x, X::Call(..)) || x.children().into_iter().any(has_call)
+                }
+                let effectful_arg = has_call(arg);
+                if effectful_arg {
+                    self.cov.bump("hit.call_with_a_call_in_its_argument");
+                }
                 let a = self.strict(&kind, &[arg])?.pop().unwrap();
                 let Some(fi) = self.fns.iter().position(|f| f.name == *name) else {
                     return Err(err("UnknownUserFunction", vec![name.clone()]));
@@ -237,6 +262,9 @@ impl<'a> Model<'a> {
                 let key = canon(&a);
                 if spec.cacheable {
                     if let Some(v) = self.cache.get(&(fi, key.clone())) {
+                        if effectful_arg {
+                            self.cov.bump("hit.cached_call_whose_argument_made_calls");
+                        }
                         return Ok(v.clone());
                     }
                 }
@@ -434,6 +462,12 @@ pub fn check(scn: &Scenario, c: &mut Counters) -> Verdict {
         c.bump("skipped.outcome_order");
         return Verdict::skip("outcomes are not in rule order (C09)".into());
     }
+    if outcomes.iter().any(|o| matches!(&o.value, Res::Err(e) if e.class.starts_with("Other("))) {
+        // an error variant this harness does not know (a limit or feature added later): not judged
+        c.bump("skipped.unknown_error_variant");
+        return Verdict::skip("outcome carries an error variant unknown to the harness".into());
+    }
+
     // the model
     let facts = match &scn.inputs[0] {
         InputSpec::Val(v) => v.to_value(),
